@@ -25,7 +25,7 @@ RULES = {
     "underflow": "NoUnderflow", "jump_range": "JumpsInside", "index_range": "IndicesInRange",
     "type_index": "IndicesInRange", "operand": "IndicesInRange", "load_undefined": "LoadsDefined",
     "reset_range": "ResetInRange", "join_height": "JoinHeightsAgree", "exit_height": "ExitHeightOne",
-    "tailcall_height": "TailCallHeights",
+    "tailcall_height": "TailCallHeights", "handover": "ReplBindingsSurvive",
 }
 C07_RUNTIME_ERRORS = ("StackUnderflow", "VariableUndefined", "FunctionUndefined", "ConstantUndefined",
                       "FrameUnderflow")
@@ -569,12 +569,72 @@ def enc_code(code):
     return [[i["op"], i["a"]] + ([i["b"]] if "b" in i else []) for i in code]
 
 
-def to_tlc_image(j):
-    """bcdump record -> the compact image VMStack.tla reads (instructions as [op, a] tuples)."""
-    return {"id": j["id"], "line": j["line"], "form": j["form"], "nconst": j["nconst"], "arity": j["arity"],
-            "ntypes": j["ntypes"], "caps": j["caps"], "tids": j["tids"], "nbuiltins": j["nbuiltins"],
-            "entries": [{"fi": e["fi"], "l0": e["l0"], "keep": e["keep"]} for e in j["entries"]],
-            "fns": [enc_code(f["code"]) for f in j["fns"]]}
+def to_tlc_image(j, only=None):
+    """bcdump record -> the compact image VMStack.tla reads (instructions as [op, a] tuples).
+    only = [(function position, l0, keep)]: analyse just these items (code of the others blanked)."""
+    out = {"id": j["id"], "line": j["line"], "form": j["form"], "nconst": j["nconst"], "arity": j["arity"],
+           "ntypes": j["ntypes"], "caps": j["caps"], "tids": j["tids"], "nbuiltins": j["nbuiltins"],
+           "entries": [{"fi": e["fi"], "l0": e["l0"], "keep": e["keep"]} for e in j["entries"]]}
+    if only is None:
+        out["fns"] = [enc_code(f["code"]) for f in j["fns"]]
+    else:
+        wanted = {o[0] for o in only}
+        out["fns"] = [enc_code(f["code"]) if (k + 1) in wanted else [] for k, f in enumerate(j["fns"])]
+        out["only"] = [list(o) for o in only]
+    return out
+
+
+def image_items(j):
+    """the analysis items of an image, as VMStack.tla's Items: (function position, l0, keep)"""
+    entry = {e["fi"] for e in j["entries"]}
+    items = [(k + 1, j["caps"][k], 0) for k in range(len(j["fns"])) if k not in entry]
+    items += [(e["fi"] + 1, e["l0"], e["keep"]) for e in j["entries"]]
+    return items
+
+
+def shape_key(j, item):
+    """Everything VMStack's analysis of an item depends on: the code with the table entries its
+    operands select, the function's own captures, entry locals, keep, and whether its type id is in
+    range.  Two items with the same key have the same analysis (used only to pick representatives
+    in the quick tier; TLC still checks the representative against its raw tables)."""
+    k, l0, keep = item
+    rc = []
+    for i in j["fns"][k - 1]["code"]:
+        op, a = i["op"], i["a"]
+        if op == "Tuple":
+            rc.append((op, j["arity"][a] if 0 <= a < len(j["arity"]) else "oor"))
+        elif op == "Function":
+            rc.append((op, j["caps"][a] if 0 <= a < len(j["caps"]) else "oor"))
+        elif op == "Constant":
+            rc.append((op, 0 <= a < j["nconst"]))
+        elif op == "IsType":
+            rc.append((op, 0 <= a < j["ntypes"]))
+        elif op == "Builtin":
+            rc.append((op, 0 <= a < j["nbuiltins"]))
+        elif op == "Process":
+            rc.append((op, a >= 0, 0 <= i.get("b", -1) < len(j["caps"])))
+        else:
+            rc.append((op, a))
+    tid = j["tids"][k - 1]
+    head = [l0, keep, j["caps"][k - 1], 0 <= tid < j["ntypes"]]
+    return hashlib.sha1(json.dumps([head, rc], separators=(",", ":")).encode()).hexdigest()
+
+
+def select_representatives(images):
+    """[(image, only)] keeping one item per distinct shape; images left with nothing are dropped."""
+    seen, out, total, kept = set(), [], 0, 0
+    for j in images:
+        only = []
+        for it in image_items(j):
+            total += 1
+            key = shape_key(j, it)
+            if key not in seen:
+                seen.add(key)
+                only.append(it)
+        kept += len(only)
+        if only:
+            out.append((j, only))
+    return out, total, kept
 
 
 def to_tlc_trace(r):
@@ -651,14 +711,21 @@ def prints_of(res, kind):
 _STAT = re.compile(r'^<<"STAT", (\d+), (\d+), (\d+), (\d+), (\d+), (\d+)>>$', re.M)
 
 
-def vmstack_check(check, images, tag, procs=4, workers=4):
+def vmstack_check(check, images, tag, procs=4, workers=4, representatives=False):
     """TLC VMStack over bcdump images.  Returns (violations, stats)."""
     stats = {"items": 0, "steps": 0, "join_arrivals": 0, "joins_with_different_local_counts": 0,
              "tailcall_sites": 0, "images": len(images)}
     viols = []
     if not images:
         return viols, stats
-    runs = tlc_parallel(check, "VMStack", "MC_VMStack.cfg", "VMSTACK_IN", [to_tlc_image(j) for j in images],
+    if representatives:
+        sel, total, kept = select_representatives(images)
+        stats["items_in_corpus"] = total
+        stats["items_selected_as_distinct_shapes"] = kept
+        records = [to_tlc_image(j, only) for j, only in sel]
+    else:
+        records = [to_tlc_image(j) for j in images]
+    runs = tlc_parallel(check, "VMStack", "MC_VMStack.cfg", "VMSTACK_IN", records,
                         tag, procs=procs, workers=workers, label="VMStack(work-list fixpoint per function)")
     for res, part in runs:
         vs = prints_of(res, "VIOL")
@@ -718,7 +785,7 @@ NONTRIVIAL_OPS = {"JumpIf", "Call", "TailCall", "Spawn", "Select", "Send"}
 
 
 def pipeline(check, programs, tag, group_size=25, trace_keep=3000, trace_max=200000, jobs=6,
-             merged=True, tlc_procs=4, tlc_workers=4, static_only=False):
+             merged=True, tlc_procs=4, tlc_workers=4, static_only=False, representatives=False):
     """Everything C07 does to a list of corpus entries.  Returns a dict with the violations
     (each with the input needed to replay it) and the measurements."""
     by_id = {p["id"]: p for p in programs}
@@ -772,13 +839,20 @@ def pipeline(check, programs, tag, group_size=25, trace_keep=3000, trace_max=200
     m["distinct_nontrivial"] = len(nontrivial)
     # 3. TLC: the static analysis
     t1 = time.time()
-    sviol, stats = vmstack_check(check, images, tag, procs=tlc_procs, workers=tlc_workers)
+    sviol, stats = vmstack_check(check, images, tag, procs=tlc_procs, workers=tlc_workers,
+                                 representatives=representatives)
     m["vmstack_s"] = round(time.time() - t1, 1)
     m["static"] = stats
     violations = []
+    member_of = {}
+    for d in images:
+        if d["form"] == "merged":
+            for e in d["entries"]:
+                member_of[(d["id"], e["fi"])] = e.get("of")
     for v in sviol:
         src = group_by_id.get(v["id"]) or (tool_record(by_id[v["id"]]) if v["id"] in by_id else None)
         violations.append({"kind": "static", "program": src, "form": v["form"], "line": v["line"],
+                           "member": member_of.get((v["id"], v["fi"])),
                            "function": v["fi"], "pc": v["pc"], "rule": v["rule"], "invariant": v["invariant"],
                            "detail": {k: v[k] for k in ("h", "l", "x", "op", "l0")}})
     # 4. the real VM, one instruction per step, and TLC: the binding
@@ -849,9 +923,28 @@ def describe(v):
         json.dumps(v.get("detail", {})), prog.get("id"), text)
 
 
+# Pinned reproducers of known findings (known_findings.json): they stay in the corpus so that the
+# finding is re-observed on every run (KNOWN-FINDING line) and a fix is noticed.
+PROBES = [
+    {"id": "probe:repl-toplevel-tailcall:self", "lines": ["x = 5", "{ | =1 => x | 1 ^ }"],
+     "source": "probes", "known": "repl-toplevel-tailcall", "rules": ["load_undefined"]},
+    {"id": "probe:repl-toplevel-tailcall:named",
+     "lines": ["f = #'int { [~, 1] __integer_add__ }, y = 3", "5 ^f", "y"],
+     "source": "probes", "known": "repl-toplevel-tailcall", "rules": ["handover"]},
+]
+
+
+def known_key(v):
+    ids = {(v.get("program") or {}).get("id"), v.get("member")}
+    for p in PROBES:
+        if p["id"] in ids and v["rule"] in p["rules"]:
+            return p["known"]
+    return None
+
+
 def select_c07(tier):
     tests, sites, unread, loose = corpus_tests()
-    fixed = corpus_std() + corpus_spec() + corpus_examples()
+    fixed = corpus_std() + corpus_spec() + corpus_examples() + [dict(p) for p in PROBES]
     info = {"test_call_sites": sites, "test_call_sites_unread": unread, "test_sessions": len(tests),
             "test_other_literals": len(loose)}
     if tier == "thorough":
@@ -890,15 +983,23 @@ def run_c07(tier):
     check.sample({"program": "std:all", "note": "whole standard library via one import program"})
     for d in r["drifts"][:5]:
         print("  MODEL-DRIFT (not a violation): %s" % json.dumps(d)[:300])
+    reported = 0
     for v in r["violations"]:
         obj = dict(v, prop="C07")
-        check.violation(obj, name=v["kind"], key=None, what=describe(v))
+        if check.violation(obj, name=v["kind"], key=known_key(v), what=describe(v) if known_key(v) is None else ""):
+            reported += 1
+    probes_seen = {(v.get("program") or {}).get("id") for v in r["violations"]} | {v.get("member") for v in r["violations"]}
+    for p in PROBES:
+        if p["id"] not in probes_seen and common.finding_for("C07", p["known"]) is not None:
+            print("  NOTE: known finding %s was NOT reproduced by %s (fixed? then mark it fixed in known_findings.json)"
+                  % (p["known"], p["id"]))
+    check.cov["known_finding_probes"] = [p["id"] for p in PROBES]
     print("C07 %s: %d programs (%s), %d images, %d functions analysed (%d distinct, %d nontrivial), "
           "%d TailCall sites, %d real traces validated (%d observations), drift=%d, violations=%d"
           % (tier, m["programs"], ", ".join("%s %d/%d" % (k, v["compiled"], v["programs"]) for k, v in sorted(m["per_source"].items())),
              m["static"]["images"], m["static"]["items"], m["distinct_functions"], m["distinct_nontrivial"],
              m["static"]["tailcall_sites"], m["traces"]["validated"], m["traces"]["observations"],
-             m["traces"]["drift"], len(r["violations"])))
+             m["traces"]["drift"], reported))
     return check.finish()
 
 
